@@ -27,11 +27,12 @@ import SA.Driver.OpsC13Vec
 import SA.Driver.OpsFloat
 import SA.Driver.OpsC16Script
 import SA.Driver.OpsC18Script
+import SA.Driver.OpsFloat2
 
 open SA SA.Wire
 
 def allOps : List (String × (Args → Except String String)) :=
-  SA.Ops.opsC01 ++ SA.Ops.opsC02 ++ SA.Ops.opsC04 ++ SA.Ops.opsC05 ++ SA.Ops.opsC06 ++ SA.Ops.opsC07 ++ SA.Ops.opsC08 ++ SA.Ops.opsC10 ++ SA.Ops.opsC11 ++ SA.Ops.opsC12 ++ SA.Ops.opsC13 ++ SA.Ops.opsC14 ++ SA.Ops.opsC15 ++ SA.Ops.opsC16 ++ SA.Ops.opsC16Fwb ++ SA.Ops.opsC17 ++ SA.Ops.opsC18 ++ SA.Ops.opsC19 ++ SA.Ops.opsC20 ++ SA.Ops.opsC11Unbiased ++ SA.Ops.opsC13Vec ++ SA.Ops.opsFloat ++ SA.Ops.opsC16Script ++ SA.Ops.opsC18Script
+  SA.Ops.opsC01 ++ SA.Ops.opsC02 ++ SA.Ops.opsC04 ++ SA.Ops.opsC05 ++ SA.Ops.opsC06 ++ SA.Ops.opsC07 ++ SA.Ops.opsC08 ++ SA.Ops.opsC10 ++ SA.Ops.opsC11 ++ SA.Ops.opsC12 ++ SA.Ops.opsC13 ++ SA.Ops.opsC14 ++ SA.Ops.opsC15 ++ SA.Ops.opsC16 ++ SA.Ops.opsC16Fwb ++ SA.Ops.opsC17 ++ SA.Ops.opsC18 ++ SA.Ops.opsC19 ++ SA.Ops.opsC20 ++ SA.Ops.opsC11Unbiased ++ SA.Ops.opsC13Vec ++ SA.Ops.opsFloat ++ SA.Ops.opsC16Script ++ SA.Ops.opsC18Script ++ SA.Ops.opsFloat2
 
 def step (line : String) : String :=
   let (op, args) := parseLine line
